@@ -109,7 +109,9 @@ class TaskSet : public TaskSetBase {
     if (DISPENSO_EXPECT(canceled(), false)) {
       return;
     }
-    if (outstandingTaskCount_.load(std::memory_order_relaxed) > taskSetLoadFactor_) {
+    if (outstandingTaskCount_.load(std::memory_order_relaxed) > taskSetLoadFactor_ &&
+        detail::PerPoolPerThreadInfo::canInlineSchedule()) {
+      detail::InlineDepthGuard depthGuard;
       f();
     } else {
       pool_.schedule(token_, packageTask(std::forward<F>(f)));
